@@ -105,6 +105,15 @@ def prepare(rep):
                 rep.violation("the emitted code of the fixed package does not compile: " + p.stderr[-800:],
                               {"cmd": "go build -race ./cmd/racerun", "log": p.stderr[-3000:]}, True)
                 return None
+            # the same two programs with the emitted packages compiled as a module that says `go 1.21` would be
+            # (per-loop, not per-iteration, loop variables): code that is only correct under the go 1.22 semantics
+            lang = ["-gcflags=concwork/...=-lang=go1.21"]
+            if not info["novs"]:
+                p = common.sh(["go", "build"] + lang + ["-o", os.path.join(bind, "vsrun21"), "./cmd/vsrun"], cwd=gen, timeout=900)
+                info["lang21_err"] = p.stderr[-800:] if p.returncode != 0 else ""
+            p = common.sh(["go", "build", "-race"] + lang + ["-o", os.path.join(bind, "racerun21"), "./cmd/racerun"], cwd=gen, timeout=900)
+            if p.returncode != 0:
+                info["lang21_err"] = p.stderr[-800:]
             open(os.path.join(bind, ".done"), "w").close()
             for x in os.listdir(d):
                 if x.startswith("conc-bin-") and os.path.join(d, x) != bind:
@@ -160,12 +169,12 @@ def proof_part(rep, prop):
     return ok
 
 
-def _run_vsrun(info, tier, seed, systems, out, timeout, maxsec=0):
+def _run_vsrun(info, tier, seed, systems, out, timeout, maxsec=0, binname="vsrun"):
     shutil.rmtree(out, ignore_errors=True)
     os.makedirs(out)
     t = time.time()
     try:
-        p = common.sh([os.path.join(info["bin"], "vsrun"), "-mode", tier, "-seed", str(seed), "-out", out,
+        p = common.sh([os.path.join(info["bin"], binname), "-mode", tier, "-seed", str(seed), "-out", out,
                        "-systems", ",".join(systems), "-maxsec", str(maxsec)], timeout=timeout)
         rc, err = p.returncode, p.stderr
     except subprocess.TimeoutExpired:
@@ -173,13 +182,13 @@ def _run_vsrun(info, tier, seed, systems, out, timeout, maxsec=0):
     return rc, err, round(time.time() - t, 1)
 
 
-def sched_part(rep, info, systems, prop, tier=None, search_only=False, timeout=3000, maxsec=0):
+def sched_part(rep, info, systems, prop, tier=None, search_only=False, timeout=3000, maxsec=0, binname="vsrun", label=""):
     """T5: runs the rewritten emitted code on the virtual scheduler (random schedules, DFS, sleep-set DFS),
     checks the observable clauses on every execution (search) and replays every step log on the Lean
     LTS (correspondence)."""
     tier = tier or rep.tier
-    out = os.path.join(info["work"] + ".run", "%s-%s-%d" % (prop, tier, rep.seed))
-    rc, err, secs = _run_vsrun(info, tier, rep.seed, systems, out, timeout, maxsec)
+    out = os.path.join(info["work"] + ".run", "%s-%s-%d%s" % (prop, tier, rep.seed, binname[5:]))
+    rc, err, secs = _run_vsrun(info, tier, rep.seed, systems, out, timeout, maxsec, binname)
     if rc != 0 and not os.path.exists(os.path.join(out, "summary.json")):
         if search_only:
             return 0
@@ -189,12 +198,16 @@ def sched_part(rep, info, systems, prop, tier=None, search_only=False, timeout=3
     bad_ids = set()
     for v in summ.get("violations") or []:
         found += 1
-        rep.violation("schedule violating the property on the emitted code (%s): %s" % (
-            v["replay"]["config"]["sys"], "; ".join(v["what"])[:600]),
-            {"kind": "sched", "replay": v["replay"], "violated": v["what"], "trace": v["trace"]}, True)
+        rep.violation("schedule violating the property on the emitted code%s (%s): %s" % (
+            label, v["replay"]["config"]["sys"], "; ".join(v["what"])[:600]),
+            {"kind": "sched", "replay": v["replay"], "violated": v["what"], "trace": v["trace"], "binary": binname}, True)
         if found >= 5:
             break
     if search_only:
+        rep.cov["evaluations"] += summ.get("executions", 0)
+        if label:
+            d = rep.cov.setdefault("lang_go1_21_runs", {"scheduler_executions": 0})
+            d["scheduler_executions"] += summ.get("executions", 0)
         shutil.rmtree(out, ignore_errors=True)
         return found
     if summ.get("unmodelled_executions"):
@@ -265,18 +278,18 @@ def sched_part(rep, info, systems, prop, tier=None, search_only=False, timeout=3
     return found
 
 
-def race_part(rep, info, systems, prop, tier=None, timeout=1500, maxsec=0):
+def race_part(rep, info, systems, prop, tier=None, timeout=1500, maxsec=0, binname="racerun", label=""):
     """Real runtime: the unrewritten emitted code under the race detector, same scenarios, many
     repetitions with GOMAXPROCS varied; outcome checked against the same observable clauses."""
     tier = tier or rep.tier
-    out = os.path.join(info["work"] + ".run", "%s-race-%s-%d" % (prop, tier, rep.seed))
+    out = os.path.join(info["work"] + ".run", "%s-race-%s-%d%s" % (prop, tier, rep.seed, binname[7:]))
     shutil.rmtree(out, ignore_errors=True)
     os.makedirs(out)
     env = dict(common.GOENV)
     env["GORACE"] = "halt_on_error=0"
     t = time.time()
     try:
-        p = common.sh([os.path.join(info["bin"], "racerun"), "-mode", tier, "-seed", str(rep.seed), "-out", out,
+        p = common.sh([os.path.join(info["bin"], binname), "-mode", tier, "-seed", str(rep.seed), "-out", out,
                        "-systems", ",".join(systems), "-maxsec", str(maxsec)], env=env, timeout=timeout)
         rc, err = p.returncode, p.stderr
     except subprocess.TimeoutExpired:
@@ -297,12 +310,13 @@ def race_part(rep, info, systems, prop, tier=None, timeout=1500, maxsec=0):
         summ = json.load(open(os.path.join(out, "race_summary.json")))
         for v in summ.get("violations") or []:
             found += 1
-            rep.violation("real-runtime execution violating the property (%s): %s" % (v["config"]["sys"], "; ".join(v["what"])[:600]),
+            rep.violation("real-runtime execution%s violating the property (%s): %s" % (label, v["config"]["sys"], "; ".join(v["what"])[:600]),
                           {"kind": "race", "replay": {"config": v["config"], "choices": []}, "violated": v["what"]}, True)
         rep.cov["evaluations"] += summ["executions"]
-        rep.cov["race_runs"] = {"executions": summ["executions"], "gomaxprocs": summ["gomaxprocs"],
-                                "per_system": summ["systems"], "wall_s": round(time.time() - t, 1),
-                                "race_reports": err.count("DATA RACE")}
+        key = "race_runs" if not label else "race_runs_lang_go1_21"
+        rep.cov[key] = {"executions": summ["executions"], "gomaxprocs": summ["gomaxprocs"],
+                        "per_system": summ["systems"], "wall_s": round(time.time() - t, 1),
+                        "race_reports": err.count("DATA RACE")}
     elif not found:
         found += 1
         rep.violation("the emitted code crashed / hung on the real runtime (rc=%s): %s" % (rc, err[-700:]),
@@ -354,6 +368,19 @@ def run(rep, prop, systems):
     else:
         rep.violation("Lean driver not built; trace validation impossible", {"correspondence": "T5"}, False)
     found += race_part(rep, info, systems, prop)
+    if prop == "C19" and not info.get("lang21_err"):
+        # the emitted join / pipeline once more, compiled with the loop-variable semantics of a `go 1.21` module
+        lab = " compiled with -lang=go1.21 (loop variables per loop)"
+        l21 = ["joincc", "joinsc", "pipeline"]
+        if not info.get("novs") and os.path.exists(os.path.join(info["bin"], "vsrun21")):
+            for sysname in l21:  # a time slice per system, so that every one of them is reached
+                if not found:
+                    found += sched_part(rep, info, [sysname], prop, search_only=True, timeout=300,
+                                        maxsec=7 if rep.tier == "quick" else 60, binname="vsrun21", label=lab)
+        if os.path.exists(os.path.join(info["bin"], "racerun21")):
+            found += race_part(rep, info, l21, prop, timeout=300, maxsec=12 if rep.tier == "quick" else 90, binname="racerun21", label=lab)
+    elif prop == "C19":
+        rep.notes.append("go1.21 build of the emitted code failed: " + info.get("lang21_err", "")[:300])
     broken = [v for v in rep.violations if not v[2]]
     if broken and not found and rep.tier == "quick":
         # something no longer checks and no failing schedule was seen: search harder (thorough pool)
